@@ -394,6 +394,16 @@ def validate_judged(chk, module, jobs, nproc=8, timeout=2400, chunk=0):
     return mism, mags
 
 
+def native_leg(chk, scenario, sets=(44, 65, 87), profile="release", **kw):
+    """The same API-level scenario on a build for the host CPU (-C target-cpu=native): code selected by
+    cfg(target_feature = ...) is compiled only there, and the properties are about every build a user can make."""
+    bindir = vlib.build_harness(profile, hooks=True, native=True)
+    tr = api_traces(chk, bindir, scenario, sets=sets, outdir=os.path.join(chk.workdir, "native_" + scenario), **kw)
+    n = validate_api(chk, {"native-%s-%d" % (scenario, s): p for s, p in tr.items()}, key_of=lambda e: "native:%s:%s" % (scenario, e.get("ev", "")))
+    chk.leg("same scenario, library built with -C target-cpu=native: " + scenario, events=n)
+    return n
+
+
 def nohooks_leg(chk, scenario, sets=(44, 65, 87), profile="release", **kw):
     """The same API-level scenario on a harness built against the library WITHOUT the verif-hooks feature: what the
     hooks observe must not differ from what an ordinary user gets (and nothing keyed on that feature can hide)."""
